@@ -556,6 +556,21 @@ func (conn *obfs4Conn) Write(b []byte) (int, error) {
 						// than one frame, this is relatively unlikely so just
 						// resample since there's enough data to ensure that
 						// the next sample will be written.
+						//
+						// Resampling alone only terminates if some run of
+						// samples consumes the buffer exactly, which for a
+						// table with a single length (eg: 41) never happens,
+						// so first top the buffer up to a whole number of
+						// writes of this length.
+						if tail := frameBuf.Len() % targetLen; tail != 0 {
+							padLen := targetLen - tail
+							for padLen < headerLength {
+								padLen += targetLen
+							}
+							if err = conn.makePacket(&frameBuf, packetTypePayload, []byte{}, uint16(padLen-headerLength)); err != nil {
+								return 0, err
+							}
+						}
 						continue
 					}
 				}
